@@ -355,7 +355,17 @@ class BaseProduct(object, metaclass=abc.ABCMeta):
                 removing_placed_workplace_component_set.add(c)
 
         for c in removing_placed_workplace_component_set:
-            c.placed_workplace.remove_placed_component(c)
+            # remove c and all of its descendants from the workplaces where each of
+            # them is placed now (a child may have been moved to another workplace)
+            removing_component_list = [c]
+            for rc in removing_component_list:
+                for child_c in rc.child_component_list:
+                    if not any(child_c is m for m in removing_component_list):
+                        removing_component_list.append(child_c)
+            for rc in removing_component_list:
+                wp = rc.placed_workplace
+                if wp is not None and rc in wp.placed_component_list:
+                    wp.placed_component_list.remove(rc)
             c.set_placed_workplace(None)
 
     def remove_absence_time_list(self, absence_time_list):
